@@ -33,6 +33,7 @@ func init() {
 		"strings.Trim":        func(m *Machine, a []Value, _ *frame) Value { return m.strTrim(a[0].(StrV), a[1].(StrV), true, true) },
 		"strings.TrimLeft":    func(m *Machine, a []Value, _ *frame) Value { return m.strTrim(a[0].(StrV), a[1].(StrV), true, false) },
 		"strings.TrimRight":   func(m *Machine, a []Value, _ *frame) Value { return m.strTrim(a[0].(StrV), a[1].(StrV), false, true) },
+		"strings.TrimSpace":   func(m *Machine, a []Value, _ *frame) Value { return m.strTrimSpace(a[0].(StrV)) },
 		"strings.TrimPrefix":  func(m *Machine, a []Value, _ *frame) Value { return m.strTrimPrefix(a[0].(StrV), a[1].(StrV)) },
 		"strings.TrimSuffix":  func(m *Machine, a []Value, _ *frame) Value { return m.strTrimSuffix(a[0].(StrV), a[1].(StrV)) },
 		"strings.ReplaceAll":  func(m *Machine, a []Value, _ *frame) Value { return m.strReplaceAll(a[0].(StrV), a[1].(StrV), a[2].(StrV)) },
@@ -423,6 +424,42 @@ func (m *Machine) strTrim(s, cutset StrV, left, right bool) Value {
 		for hi > lo && m.branch(m.inCutset(s.b[hi-1], cut)) {
 			hi--
 		}
+	}
+	return StrV{s.b[lo:hi]}
+}
+
+// strTrimSpace: strings.TrimSpace. A concrete string is trimmed by the real function (Unicode white
+// space included); a symbolic one is handled while the bytes at its ends are ASCII (branching on
+// membership in the six ASCII white-space bytes) - a possibly non-ASCII byte at an end would need the
+// unicode tables and is unsupported.
+func (m *Machine) strTrimSpace(s StrV) Value {
+	if c, ok := s.concrete(); ok {
+		t := strings.TrimSpace(c)
+		lo := strings.Index(c, t)
+		if t == "" {
+			lo = 0
+		}
+		return StrV{s.b[lo : lo+len(t)]}
+	}
+	const ws = "\t\n\v\f\r "
+	lo, hi := 0, len(s.b)
+	for lo < hi {
+		if m.branch(m.st.Bin(OpULe, m.st.Const(8, 0x80), s.b[lo])) {
+			m.unsupported("strings.TrimSpace with a symbolic non-ASCII byte at the start")
+		}
+		if !m.branch(m.inCutset(s.b[lo], ws)) {
+			break
+		}
+		lo++
+	}
+	for hi > lo {
+		if m.branch(m.st.Bin(OpULe, m.st.Const(8, 0x80), s.b[hi-1])) {
+			m.unsupported("strings.TrimSpace with a symbolic non-ASCII byte at the end")
+		}
+		if !m.branch(m.inCutset(s.b[hi-1], ws)) {
+			break
+		}
+		hi--
 	}
 	return StrV{s.b[lo:hi]}
 }
